@@ -18,5 +18,5 @@ obs = core.match_rows(g, r)
 names = sorted({ob["name"] for ob in obs if ob["kind"] in ("fn", "lemma") and ob["success"]})
 shape = {fn["key"]: [fn.get("closures_without_contract", 0), fn.get("loops", 0)] for fn in g.fns}
 out = os.path.join(VERIF, "units", unit, "baseline_I.json")
-json.dump({"obligations": names, "anchor_lines": g.anchor_lines, "closure_sigs": g.closure_sigs, "shape": shape}, open(out, "w"), indent=1)
+json.dump({"obligations": names, "anchor_lines": g.anchor_lines, "closure_sigs": g.closure_sigs, "loop_sigs": g.loop_sigs, "shape": shape}, open(out, "w"), indent=1)
 print("pinned", len(names), "obligations ->", out, "| failed:", sorted({ob["name"] for ob in obs if not ob["success"]}))
